@@ -53,6 +53,15 @@ impl MechFunctionImpl for SetInsertFxn {
       // Clear the output set first (optional, depending on semantics)
       out_ptr.set.clear();
 
+      // The empty set `{}` has no element kind yet: it takes the kind of the
+      // first element inserted into it.
+      if set_ptr.set.is_empty() && set_ptr.kind == ValueKind::Empty {
+        out_ptr.set.insert(elem_ptr.clone());
+        out_ptr.kind = elem_ptr.kind();
+        out_ptr.num_elements = out_ptr.set.len();
+        return;
+      }
+
       let (types_match, sizes_match) = match_types(set_ptr.kind.clone(), elem_ptr.kind().clone());
       // Insert arg2 into arg1
       if(types_match)
